@@ -71,3 +71,92 @@ def c_recovers_t(c):
 NOT_COVERED = ["Davenport, QUEST, FLAE (all modes), OLEQ (np.linalg.eig / iterations / random start: out of reach)",
                "FQA, Tilt, acc2q/am2q/am2angles (trig-heavy; not attempted in this session)",
                "estimators whose unit is listed as not discharged in the evidence are not claimed"]
+
+
+# ----------------------------------------------------------------------------------------- concrete canonical grid
+def _grid():
+    import itertools
+    pts = []
+    k = 0
+    for dip in (-70.0, -20.0, 35.0, 75.0):
+        for pose in ('random1', 'random2', 'random3', 'level-heading-30', 'level-heading-200', 'inverted', 'inverted-tilted',
+                     'x-up', 'y-up', 'half-turn-oblique'):
+            for scale in ((1.0, 1.0), (9.81, 48.0)):
+                pts.append(dict(dip=dip, pose=float(k % 10), sa=scale[0], sm=scale[1]))
+                k += 1
+    return pts
+
+
+POSES = ['random1', 'random2', 'random3', 'level-heading-30', 'level-heading-200', 'inverted', 'inverted-tilted', 'x-up', 'y-up',
+         'half-turn-oblique']
+
+
+def _pose_quat(name):
+    rng = np.random.default_rng(abs(hash(name)) % 1000 if False else {'random1': 1, 'random2': 2, 'random3': 3}.get(name, 7))
+    def axang(ax, ang):
+        ax = np.array(ax, float); ax /= np.linalg.norm(ax)
+        return np.array([np.cos(ang / 2), *(np.sin(ang / 2) * ax)])
+    def qm(p, q):
+        return np.array([p[0]*q[0]-p[1]*q[1]-p[2]*q[2]-p[3]*q[3], p[0]*q[1]+p[1]*q[0]+p[2]*q[3]-p[3]*q[2],
+                         p[0]*q[2]-p[1]*q[3]+p[2]*q[0]+p[3]*q[1], p[0]*q[3]+p[1]*q[2]-p[2]*q[1]+p[3]*q[0]])
+    if name.startswith('random'):
+        q = rng.normal(size=4); return q / np.linalg.norm(q)
+    if name == 'level-heading-30':
+        return axang([0, 0, 1], np.radians(30))
+    if name == 'level-heading-200':
+        return axang([0, 0, 1], np.radians(200))
+    if name == 'inverted':
+        return qm(axang([0, 0, 1], 0.4), axang([1, 0, 0], np.pi))
+    if name == 'inverted-tilted':
+        return qm(axang([0, 0, 1], 1.1), axang([1, 0.3, 0], np.radians(150)))
+    if name == 'x-up':
+        return qm(axang([0, 0, 1], 0.7), axang([0, 1, 0], np.radians(80)))
+    if name == 'y-up':
+        return qm(axang([0, 0, 1], -0.5), axang([1, 0, 0], np.radians(85)))
+    return axang([1, 2, 3], np.pi)
+
+
+GRID_EST = {
+    # name: (g_ref, m_ref(c, s), run(ahrs, a, m, m_ref), matrix expected: 'M' (= M(q)) or 'MT')
+    'SAAM': ([0, 0, 1.0], lambda c, s: [c, 0, s], lambda ah, a, m, mr: ah.filters.SAAM().estimate(a, m), 'MT'),
+    'FAMC': ([0, 0, 1.0], lambda c, s: [c, 0, s], lambda ah, a, m, mr: ah.filters.FAMC().estimate(a, m), 'M'),
+    'Tilt': ([0, 0, 1.0], lambda c, s: [c, 0, s], lambda ah, a, m, mr: ah.filters.Tilt().estimate(a, m), 'M'),
+    'AQUA': ([0, 0, 1.0], lambda c, s: [c, 0, s], lambda ah, a, m, mr: ah.filters.AQUA().estimate(a, m), 'MT'),
+    'FQA': ([0, 0, -1.0], lambda c, s: [c, 0, s], lambda ah, a, m, mr: ah.filters.FQA(mag_ref=np.array(mr)).estimate(a.copy(), m.copy()), 'M'),
+    'FQA.east': ([0, 0, -1.0], lambda c, s: [c * np.cos(0.35), c * np.sin(0.35), s],
+                 lambda ah, a, m, mr: ah.filters.FQA(mag_ref=np.array(mr)).estimate(a.copy(), m.copy()), 'M'),
+    'Davenport': ([0, 0, 1.0], lambda c, s: [c, 0, s], None, 'M'),
+    'QUEST': ([0, 0, 1.0], lambda c, s: [c, 0, s], None, 'M'),
+}
+
+
+@contract('C04', 'recovers.grid', variants=[dict(e=k) for k in GRID_EST], concrete_points=_grid(),
+          bounded='80 canonical points per estimator: 4 dips x 10 poses (random, level, inverted, vertical axes, oblique half-turn) '
+                  'x 2 scalings; NOT a proof', functions=['SAAM.estimate', 'FAMC.estimate', 'Tilt.estimate', 'AQUA.estimate',
+                                                          'FQA.estimate', 'Davenport.estimate', 'QUEST.estimate'])
+def c_grid(c):
+    """BOUNDED stand-in for the estimators out of symbolic reach: on the canonical grid the returned attitude maps the
+    references onto the measurements in the estimator's documented direction (1e-6), or the pose is one of the estimator's
+    published singular poses (then the point is skipped, which is recorded)"""
+    import ahrs, warnings
+    warnings.filterwarnings('ignore')
+    name = c.p['e']
+    g_ref, m_fn, run, direction = GRID_EST[name]
+    dip = np.radians(c.real('dip')); cd, sd = np.cos(dip), np.sin(dip)
+    q = _pose_quat(POSES[int(c.real('pose'))])
+    R = ahrs.Quaternion(q).to_DCM()
+    g = np.array(g_ref, float); mr = np.array(m_fn(cd, sd), float)
+    a = c.real('sa') * (R.T @ g); m = c.real('sm') * (R.T @ mr)
+    closed_form = name in ('SAAM', 'FAMC', 'FQA', 'FQA.east', 'QUEST')
+    if closed_form and (min(abs(q)) < 0.05 or abs(q[0]) < np.cos((np.pi - 0.1) / 2)):
+        c.note('outside general position for a closed-form estimator: skipped')
+        return
+    if name in ('Davenport', 'QUEST'):
+        f = getattr(ahrs.filters, name)(magnetic_dip=float(c.real('dip')))
+        out = np.real(f.estimate(a, m))
+    else:
+        out = run(ahrs, a, m, mr)
+    out = np.asarray(out, float)
+    A = ahrs.Quaternion(out).to_DCM() if out.shape == (4,) else out
+    want = R if direction == 'M' else R.T
+    c.goal('attitude', bool(np.allclose(A, want, atol=1e-6)))
